@@ -295,6 +295,54 @@ theorem C26_norm_lowercase (d : Dialect) (hd : lowerCasing d = true) (D : Decls)
   exact ⟨fun t ht hs => (hl.tables t ht hs).2 hd, fun c hc hs => (hl.columns c hc hs).2 hd,
          fun i hi n hn hs => (hl.indexes i hi n hn hs).2 hd, fun f hf n hn hs => (hl.fks f hf n hn hs).2 hd⟩
 
+/-! ### the schema matches the entity model -/
+
+/-- MAPPING, all declaration lists: for every attribute, every column `generate_mapping` passed to `add_column`
+    (logged in `placed`: table, entity, attribute, column names, `not attr.nullable`) is in the final schema exactly
+    once, in that table, with that NOT NULL flag — later registry operations never remove, rename or re-flag it.
+    The engine compares the log with `attr.columns` / `attr.nullable` of the real attributes on every run. -/
+theorem C26_columns (d : Dialect) (D : Decls) (st : St d) (_h : generateSt d D = .ok st) :
+    ∀ p ∈ st.placed, ∀ c ∈ p.cols,
+      HasCol st.schema.1 p.table c p.notNull ∧
+      (st.schema.1.columns.filter (fun col => col.table == p.table && col.name == c)).length = 1 := by
+  intro p hp c hc
+  have hh := st.placedOk p hp c hc
+  refine ⟨hh, ?_⟩
+  obtain ⟨col, hcol, ht, hn, _⟩ := hh
+  have := col_unique st.schema.2.1 hcol
+  rw [ht, hn] at this
+  exact this
+
+/-- MAPPING, all declaration lists: every foreign key `generate_mapping` registered for a relationship attribute
+    (logged in `linked`) is in the final schema with the same child columns, parent table and parent columns -/
+theorem C26_foreign_keys (d : Dialect) (D : Decls) (st : St d) (_h : generateSt d D = .ok st) :
+    ∀ p ∈ st.linked, HasFk st.schema.1 p.child p.cols p.parent p.parentCols :=
+  st.linkedOk
+
+/-- `generate` is the schema component of `generateSt` -/
+theorem C26_generate_state (d : Dialect) (D : Decls) (s : Schema) :
+    generate d D = .ok s ↔ ∃ st, generateSt d D = .ok st ∧ st.schema.1 = s := by
+  unfold generate
+  cases hg : generateSt d D with
+  | ok st =>
+    simp only [Except.ok.injEq]
+    constructor
+    · intro h; exact ⟨st, rfl, h⟩
+    · rintro ⟨st', h1, h2⟩; cases h1; exact h2
+  | error e =>
+    simp only
+    constructor
+    · intro h; cases h
+    · rintro ⟨st', h1, _⟩; cases h1
+
+def logSizes (d : Dialect) (D : Decls) : Nat × Nat :=
+  match generateSt d D with
+  | .ok st => (st.placed.length, st.linked.length)
+  | .error _ => (0, 0)
+
+/-- the logs are not empty: three attributes with columns in `caseWitness`; two link-table foreign keys in `lenWitness` -/
+example : logSizes .sqlite caseWitness = (3, 0) ∧ logSizes .oracle lenWitness = (2, 2) := by decide
+
 /-! ### creation order -/
 
 /-- ORDER, all accepted mappings: `order_tables_to_create` terminates with a permutation of the tables (no table
